@@ -34,6 +34,11 @@ type Spec struct {
 	// Event logs of the two workers are not comparable, so a replay must use
 	// the same kind of worker.
 	Auto bool `json:"auto,omitempty"`
+	// ColdStart: the reference evaluations run AFTER the tasks instead of
+	// before them, so that the tasks are the first to execute the library's
+	// code paths in the process (first-use initialisation met concurrently).
+	// Set by the worker for the first run of a process.
+	ColdStart bool `json:"cold_start,omitempty"`
 }
 
 // StratSpec names the scheduling strategy of a generated run.
@@ -60,6 +65,10 @@ type DocSpec struct {
 	// first n elements of the array member `source` AS A SUB-SLICE: same
 	// backing array, spare capacity reaching into the rest of `source`.
 	Subslice []string `json:"subslice,omitempty"`
+	// Typed replaces some generic containers of the decoded document by
+	// Go-typed ones ([]map[string]interface{}, []float64, []string,
+	// map[string]map[string]interface{}).
+	Typed bool `json:"typed,omitempty"`
 }
 
 // ExprSpec is an expression compiled by the controller before the tasks
@@ -142,6 +151,7 @@ type Result struct {
 	Linearized  int             `json:"linearized,omitempty"`
 	Confounded  int             `json:"confounded,omitempty"`
 	Note        string          `json:"note,omitempty"`
+	ColdStart   bool            `json:"cold_start,omitempty"`
 	NodeTypes   map[string]int  `json:"node_types,omitempty"` // node types evaluated by the reference evaluations
 	Funcs       map[string]int  `json:"funcs,omitempty"`      // callables called by the reference evaluations
 	Outs        []string        `json:"outs,omitempty"` // "<triple hash>:<outcome hash>" of unfaulted evaluations (C05 cross-process oracle)
